@@ -78,6 +78,12 @@ def run(ctx):
     # the known class KF4 is "member NAMES are not hashed (and case is folded)": exactly the collisions the model
     # of the code as it is has too.  A collision between shapes the model names DIFFERENTLY is new.
     mname = dict(zip(ts, ctx.model(["gen_name\t" + t for t in ts])))
+    # how many of the collisions are inside the class the theorem C16_name_collision_class describes
+    # (same_types: equal constructors, flags and member / variant / element TYPES in order)
+    cp = [(v[0], t) for _, v in coll for t in v[1:]][:3000]
+    st = vlib.model_bools(["gen_same_types\t%s\t%s" % p for p in cp]) if cp else []
+    ctx.notes["colliding_pairs_checked"] = len(cp)
+    ctx.notes["colliding_pairs_in_class_same_types"] = sum(st)
     n_known = 0
     for n, v in coll:
         fresh = [t for t in v[1:] if mname.get(t) != mname.get(v[0])]
